@@ -1,5 +1,5 @@
 ENGINES = [
-    {"name": "pyvc", "path": "/verif/pyvc", "serves_properties": ["C02", "C04", "C05", "C09"],
+    {"name": "pyvc", "path": "/verif/pyvc", "serves_properties": ["C01", "C02", "C04", "C05", "C09"],
      "kind_free_text": "own verification-condition generator: symbolic execution of the AST of the real functions (re-read from /repo on every run) against sidecar contracts, discharged with z3; bounded run-time contract checking of the real functions as labelled stand-in"},
 ]
 NOTES = ("Contract-based deductive verification with an own VC generator (PyVC) over the real source; see DESIGN.md. "
@@ -25,5 +25,10 @@ CHECKS.append(
      "text": "CachedMapper.__call__ proved for every node class, symbolic handler set and symbolic extra arguments to return what the un-memoized dispatch returns (cache invariant assumed on hits and re-established for every entry written, no handler runs on a hit, only _cache assigned); get_cache_key proved injective in (type(expr), expr, args, kwargs); CSE caching mix-in proved for the evaluation and dependency mappers; table obligations on the concrete cached classes; optimizer (all 32 option sets), cached/uncached pairs and call histories as bounded stand-in",
      "note": "A-EQ-KEY (look-up with an equal key = look-up with that key) and determinism of handlers are assumed; the premise that mapping respects equality of nested constants is false on the pinned tree (known findings C05-nested-constant-type*); optimize_mapper is bounded only (translation validation of its output is not attempted); known finding C05-inline-rec-bypasses-cache",
      "technique": "deductive: object-invariant VCs on the real __call__ with a symbolic dict, injectivity lemma over the real get_cache_key, z3; bounded differential runs for the optimizer"})
+CHECKS.append(
+    {"id": "C01", "category": "proof",
+     "text": "for every expression dataclass and the fixture hierarchies (decorated, undecorated-legacy, mixed) the generated __eq__/__hash__/state methods (text captured from _MODULE_SOURCE_CODE and byte-code-compared with the running functions) and the legacy Expression back end are proved: eq <=> same class and field-wise ==, fresh hash cached and nothing else assigned, SpecEq => equal hashes, cached hash returned unchanged, state = exactly the fields without the cached hash; __post_init__ contracts; decorator configuration (frozen=__debug__, eq=False); frame scan of all attribute writes that can reach an existing expression; bounded pairs/triples/histories as cross-check",
+     "note": "A-EQ (== on field values is an equivalence compatible with hash; tuple hash is a function of element hashes) is assumed, dataclasses' frozen semantics trusted; transitivity/symmetry of == follow field-wise from A-EQ (lemma not machine-checked beyond the bounded triples); Polynomial/Rational unhashable is known finding C01-legacy-builtins-unhashable",
+     "technique": "deductive: VCs from the generated method text per class vs. field-wise specification, relational hash-consistency obligation, z3; syntactic frame scan; bounded pair/history enumeration"})
 _PENDING = "check not built yet in this session (planned per DESIGN.md section 5); not claimed until its check exists"
 NOT_APPLICABLE = [{"property_id": f"C{i:02d}", "reason": _PENDING} for i in range(1, 21) if f"C{i:02d}" not in {c["id"] for c in CHECKS}]
